@@ -426,6 +426,7 @@ def check_einsum_printers(ctx: Check, tree: Tree) -> None:
 
 def run(ctx: Check, tree: Tree) -> None:
     ctx.decided += [
+        "R-PREC: templates of the kinematics / array printers never put an unparenthesised printed sub-expression next to a tighter-binding operator",
         "R-EINSUM: Array/MatrixMultiplication print ONE einsum over all printed arguments in order with the contraction for that many tensors (the contraction strings themselves are not decided)",
         "R-PRINT: every value interpolated into generated code by the printer methods passes printer._print (or is a literal / class-level literal)",
         "R-TERM: as_explicit() == matrix laid out by the numpy template for the arguments evaluate() passes (BoostZ, RotationY, RotationZ, Boost: 4x16 entries); metric literal; NegativeMomentum = eta·p",
@@ -436,9 +437,12 @@ def run(ctx: Check, tree: Tree) -> None:
         "ComplexSqrt(x) == sqrt(x) for x >= 0 (beta <= 1); formal radical algebra at a generic positive point",
         "the str printer is not NumPy code (SymPy): a raw SymPy object inside an f-string prints as e.g. `ArrayAxisSum(...)`",
     ]
-    check_printers(ctx, tree)
-    mats = check_siblings(ctx, tree)
-    check_metric(ctx, tree)
-    check_lorentz(ctx, tree, mats)
-    check_general_boost(ctx, tree, mats)
-    check_einsum_printers(ctx, tree)
+    ctx.section(check_printers, ctx, tree)
+    mats = ctx.section(check_siblings, ctx, tree)
+    ctx.section(check_metric, ctx, tree)
+    ctx.section(check_lorentz, ctx, tree, mats)
+    ctx.section(check_general_boost, ctx, tree, mats)
+    ctx.section(check_einsum_printers, ctx, tree)
+    from .c14 import check_precedence
+
+    ctx.section(check_precedence, ctx, tree, prefixes=("ampform.kinematics", "ampform.sympy._array_expressions"))
